@@ -72,6 +72,9 @@ pub struct PipelineTrace {
     pub hash_seed: u64,
     pub now: i64,
     pub labels: Vec<String>,
+    /// verification on the worker's long-lived verifier thread
+    #[serde(default)]
+    pub same_thread: bool,
 }
 
 const FILES: &[&str] = &["foo", "bar", "src/a", "src/b", "src/x/c", "a.c", "b.h", ".hidden", "out/a", "README", "with space", "src/\u{fc}bersicht", "~lock"];
@@ -307,7 +310,7 @@ pub fn run_pipeline(t: &PipelineTrace, scratch: &Scratch) -> PipeOutcome {
     };
     let bytes = to_text(&doc, false).into_bytes();
     let owner = keys::key(t.keys[0]);
-    let call = VerifyCall { layout_bytes: &bytes, caller_keys: vec![(owner.id.clone(), owner.public.clone())], link_dir: &scratch.links(), cwd: &scratch.work(), clock: &[(t.now, 0)], hash_seed: t.hash_seed, step_name: None };
+    let call = VerifyCall { layout_bytes: &bytes, caller_keys: vec![(owner.id.clone(), owner.public.clone())], link_dir: &scratch.links(), cwd: &scratch.work(), clock: &[(t.now, 0)], hash_seed: t.hash_seed, step_name: None, same_thread: t.same_thread, mem_sigdup: vec![] };
     match exec::verify(&call) {
         CallResult::NoLayout(e) => o.no_layout = Some(e),
         CallResult::Verdict(v) => o.verdict = Some(v),
@@ -485,6 +488,8 @@ pub fn judge_pipeline(t: &PipelineTrace, o: &PipeOutcome) -> (Vec<Finding>, Stri
         } else if let Some(why) = &insp_reject {
             if v.ok && !insp_failing {
                 f.push(fnd("C03", "rule-violation-accepted", format!("pipeline: reference model rejects: {why}")));
+                // (C08: an inspection's recorded materials and products are subject to its rules like a step's)
+                f.push(fnd("C08", "inspection-rule-violation-accepted", format!("pipeline: the inspection ran, the reference model rejects its rules on the working directory as it was before / after the command ({why}), yet verification returned Ok")));
             }
         } else if !v.ok && !insp_failing {
             // every signature, threshold and date is fine by construction: nothing but the rules can object
@@ -538,7 +543,7 @@ pub fn exec_and_fold(t: &PipelineTrace, scratch: &Scratch, rec: &mut RunRecord, 
     sh.str(&format!("{:?}", t.inspection.as_ref().map(|i| (i.exp_mat.len(), i.exp_prod.len(), i.actor.ops.len()))));
     if let Some(v) = &o.verdict {
         let masked: String = exec::mask_scratch(&v.short()).chars().map(|c| if c.is_ascii_digit() { '#' } else { c }).collect();
-        d.str(&masked);
+        d.str(if t.same_thread { v.verdict_class() } else { &masked });
         if let Some(s) = &v.summary {
             d.str(&s.to_string());
         }
@@ -802,7 +807,8 @@ pub fn gen_trace(seed: u64, _tier: Tier, force_insp: bool) -> PipelineTrace {
         let mut ops = vec![];
         for _ in 0..r.weighted(&[50, 30, 20]) {
             match r.below(3) {
-                0 => ops.push(FsOp::Write { path: r.pick(&["report", "out/a", "foo", "unpacked/x"]).to_string(), content: format!("inspected-{}", r.below(3)) }),
+                // (among the names: link files as inspections leave them behind, this one's and others')
+                0 => ops.push(FsOp::Write { path: r.pick(&["report", "out/a", "foo", "unpacked/x", "inspect-final.link", "insp.link", "audit.link"]).to_string(), content: format!("inspected-{}", r.below(3)) }),
                 1 if !final_files.is_empty() => ops.push(FsOp::Remove { path: r.pick(&final_files).clone() }),
                 _ => ops.push(FsOp::Write { path: "report".into(), content: "ok".into() }),
             }
@@ -819,7 +825,7 @@ pub fn gen_trace(seed: u64, _tier: Tier, force_insp: bool) -> PipelineTrace {
     } else {
         None
     };
-    PipelineTrace { keys, initial, steps, delivery, inspection, hash_seed: r.next(), now: gen::NOW_DEFAULT + (seed % 1000) as i64 * 86_400, labels }
+    PipelineTrace { keys, initial, steps, delivery, inspection, hash_seed: r.next(), now: gen::NOW_DEFAULT + (seed % 1000) as i64 * 86_400, labels, same_thread: gen::same_thread_block(seed) }
 }
 
 pub fn run_check(prop: &str, tier: Tier, seed: u64, index: u64, scratch: &Scratch, rec: &mut RunRecord) {
